@@ -19,26 +19,34 @@ import (
 
 type snapT map[string]string // "METHOD url-with-V-replaced" -> status:sha(body)
 
-// snapshot GETs every versioned read endpoint of every instance at V.
+// the committed versions whose content is recorded and re-read: V, its parent P, and X (a
+// committed branch HEAD on another branch)
+func snapNodes() [][2]string {
+	return [][2]string{{"V", uuidV}, {"P", uuidP}, {"X", uuidX}}
+}
+
+// snapshot GETs every versioned read endpoint of every instance at every recorded version.
 func snapshot(entries []entryT, byPkg map[string][]instT) snapT {
 	s := snapT{}
-	for _, e := range entries {
-		for _, in := range byPkg[e.Pkg] {
-			if in.Unversioned {
-				continue
-			}
-			for _, sp := range probesFor(e.Pkg, e.Kw, "get", in) {
-				if !sp.Snap {
+	for _, nd := range snapNodes() {
+		for _, e := range entries {
+			for _, in := range byPkg[e.Pkg] {
+				if in.Unversioned || in.Name == "lmscratch" {
 					continue
 				}
-				kw := e.Kw
-				if kw == "*" {
-					kw = sp.Star
+				for _, sp := range probesFor(e.Pkg, e.Kw, "get", in) {
+					if !sp.Snap {
+						continue
+					}
+					kw := e.Kw
+					if kw == "*" {
+						kw = sp.Star
+					}
+					url := urlFor(nd[1], in, kw, sp)
+					r := tDo("GET", url, sp.Body)
+					h := sha256.Sum256(canon(e.Kw, r.Body))
+					s[strings.Replace(url, nd[1], nd[0], 1)] = fmt.Sprintf("%d:%s:%d", r.Status, hex.EncodeToString(h[:6]), len(r.Body))
 				}
-				url := urlFor(uuidV, in, kw, sp)
-				r := dv.Do("GET", url, sp.Body)
-				h := sha256.Sum256(canon(e.Kw, r.Body))
-				s[strings.Replace(url, uuidV, "V", 1)] = fmt.Sprintf("%d:%s:%d", r.Status, hex.EncodeToString(h[:6]), len(r.Body))
 			}
 		}
 	}
@@ -188,19 +196,187 @@ func deleteInstance(name string) error {
 }
 
 type stabT struct {
-	Kind     string   `json:"kind"`
-	Reads    int      `json:"reads"`
-	Ops      []string `json:"ops"`
-	Differ   []string `json:"differ"`
-	DigestV  bool     `json:"digest_v_changed"`
-	NodeV    bool     `json:"node_state_changed"`
-	Config   string   `json:"config"` // default | labelmap-index-cache
-	Checkpoints int   `json:"checkpoints"`
-	Nonempty int      `json:"reads_with_content"`
+	Kind        string   `json:"kind"`
+	Config      string   `json:"config"` // default | labelmap-index-cache | restart
+	Reads       int      `json:"reads"`
+	Nonempty    int      `json:"reads_with_content"`
+	Checkpoints int      `json:"checkpoints"`
+	Ops         []string `json:"ops"`
+	Differ      []string `json:"differ"`
+	NodeV       bool     `json:"node_state_changed"`
 }
 
-// stability: snapshot V, run a random later history on descendants, siblings, merges, new and
-// deleted instances, snapshot again.
+type perT struct {
+	Kind   string   `json:"kind"`
+	Config string   `json:"config"`
+	Node   string   `json:"node"`
+	Inst   string   `json:"instance"`
+	Pkg    string   `json:"pkg"`
+	Reads  int      `json:"reads"`
+	Differ []string `json:"differ"` // "<url>: <answer at commit time> -> <later answer> after <place of the later history>"
+	Known  []string `json:"differ_known"`
+	Code   int      `json:"known_code"`
+}
+
+// recorder keeps, for every read of the snapshot, the first later answer that differs from the one
+// recorded at commit time, and the part of the later history after which it was seen.
+type recorder struct {
+	entries []entryT
+	byPkg   map[string][]instT
+	before  snapT
+	worst   snapT
+	where   map[string]string
+	n       int
+	sparse  bool
+}
+
+func newRecorder(entries []entryT, byPkg map[string][]instT) *recorder {
+	r := &recorder{entries: entries, byPkg: byPkg, worst: snapT{}, where: map[string]string{}}
+	r.before = snapshot(entries, byPkg)
+	for k, v := range r.before {
+		r.worst[k] = v
+	}
+	return r
+}
+
+func (r *recorder) checkpoint(after string) {
+	if explore && os.Getenv("C02_EXPLORE") == "3" {
+		fmt.Printf("DBG before %q: V mapping %q P mapping %q\n", after, tDo("GET", node(uuidV, "lm", "mapping?u=verif"), []byte("[1,2,3,7]")).Body, tDo("GET", node(uuidP, "lm", "mapping?u=verif"), []byte("[1,2,3,7]")).Body)
+	}
+	if r.sparse && !strings.Contains(after, "restart") && !strings.Contains(after, "random tail") {
+		return // (restart run, quick tier: every snapshot crosses the pipe to the child process)
+	}
+	settleLater()
+	now := snapshot(r.entries, r.byPkg)
+	for k, v := range r.before {
+		if r.worst[k] == v && now[k] != v {
+			r.worst[k] = now[k]
+			r.where[k] = after
+			if explore {
+				fmt.Printf("DIFF %s: %s -> %s after %s\n", k, v, now[k], after)
+			}
+		}
+	}
+	r.n++
+}
+
+func settleLater() {
+	if inProcess {
+		time.Sleep(40 * time.Millisecond)
+		quiesce(true)
+	} else {
+		time.Sleep(700 * time.Millisecond)
+	}
+}
+
+// emit writes the stability cases: one summary and one per (recorded version, instance).
+func (r *recorder) emit(run *lib.Run, st *stabT) {
+	var keys []string
+	for k := range r.before {
+		keys = append(keys, k)
+	}
+	sort.Strings(keys)
+	per := map[string]*perT{}
+	var names []string
+	for _, k := range keys {
+		parts := strings.Split(k, "/") // "", api, node, <V|P|X>, inst, kw...
+		nd, name := parts[3], parts[4]
+		id := nd + "/" + name
+		p := per[id]
+		if p == nil {
+			p = &perT{Kind: "stability-instance", Config: st.Config, Node: nd, Inst: name}
+			for _, in := range insts {
+				if in.Name == name {
+					p.Pkg = in.Pkg
+				}
+			}
+			per[id] = p
+			names = append(names, id)
+		}
+		p.Reads++
+		if strings.HasPrefix(r.before[k], "200:") {
+			st.Nonempty++
+		}
+		if r.before[k] != r.worst[k] {
+			d := fmt.Sprintf("%s: %s -> %s after %s", k, r.before[k], r.worst[k], r.where[k])
+			switch {
+			case p.Pkg == "roi" && strings.Contains(k, "/partition"):
+				// recorded finding C02-roi-partition: laid out from the instance-wide MinZ/MaxZ properties
+				p.Known, p.Code = append(p.Known, d), 7
+			case p.Pkg == "tarsupervoxels":
+				// recorded finding C02-tarsupervoxels-root-pinned: every blob lives at the repo's root version
+				p.Known, p.Code = append(p.Known, d), 8
+			default:
+				p.Differ = append(p.Differ, d)
+				st.Differ = append(st.Differ, d)
+			}
+		}
+	}
+	st.Reads = len(r.before)
+	st.Checkpoints = r.n
+	run.Extra["stability_reads/"+st.Config] = st.Reads
+	run.Extra["stability_reads_with_content/"+st.Config] = st.Nonempty
+	run.Extra["stability_ops/"+st.Config] = len(st.Ops)
+	if explore {
+		fmt.Println("stability", st.Config, ": reads", st.Reads, "with content", st.Nonempty, "ops", len(st.Ops), "differ", len(st.Differ), "node", st.NodeV)
+	}
+	run.Add("stability", fmt.Sprintf("CStable %d %d %d %s", st.Reads, st.Nonempty, len(st.Differ), lib.CoqBool(st.NodeV)), st, "stability/"+st.Config)
+	for _, id := range names {
+		p := per[id]
+		run.Add("stability-instance", fmt.Sprintf("CStabInst %d %d %d %d", p.Code, p.Reads, len(p.Differ), len(p.Known)), p, "stability/"+st.Config+"/"+id)
+	}
+}
+
+// writeBatch sends, to the open node u, every request of the generated table that the handler
+// accepts with POST, PUT or DELETE, for every instance, with every probe shape: overwrites,
+// replacements, deletions of every recorded key, and the whole-instance operations (DELETE roi,
+// POST roi, annotation reload, labelmap ingest-supervoxels / blocks / raw, tarsupervoxels load ...).
+// Instance-level configuration endpoints are left to the request matrix.
+func writeBatch(st *stabT, entries []entryT, byPkg map[string][]instT, has map[string]bool, u, place string) {
+	n, ok := 0, 0
+	for _, e := range entries {
+		switch e.Kw {
+		case "info", "sync", "tags", "help", "metadata", "resolution":
+			continue
+		}
+		for _, in := range byPkg[e.Pkg] {
+			if !has[in.Name] {
+				continue
+			}
+			for _, meth := range []string{"post", "put", "delete"} {
+				accepted := false
+				for _, m := range e.Methods {
+					if m == meth {
+						accepted = true
+					}
+				}
+				if !accepted {
+					continue
+				}
+				for _, sp := range probesFor(e.Pkg, e.Kw, meth, in) {
+					kw := e.Kw
+					if kw == "*" {
+						kw = sp.Star
+					}
+					r := tDo(strings.ToUpper(meth), urlFor(u, in, kw, sp), sp.Body)
+					n++
+					if r.Status == 200 {
+						ok++
+					}
+				}
+			}
+		}
+	}
+	st.Ops = append(st.Ops, fmt.Sprintf("%s: every accepted POST/PUT/DELETE of every instance: %d requests, %d answered 200", place, n, ok))
+}
+
+// stability: record what the committed versions V, P and X return, then run a later history and
+// re-read.  The later history writes, replaces and deletes the content of EVERY instance
+//   (a) in descendants of V,
+//   (b) in siblings forked from V's parent, from its grandparent, and from the empty root,
+//   (c) on an unrelated branch,
+//   (d) in other instances (created and deleted, including the neighbour in instance-id order),
+// with a checkpoint (full re-read) after each place, then a random tail of version operations.
 func stability(run *lib.Run, rng *lib.Rand, o lib.Opts, config string) {
 	_, entries := loadRoutes()
 	byPkg := map[string][]instT{}
@@ -209,112 +385,109 @@ func stability(run *lib.Run, rng *lib.Rand, o lib.Opts, config string) {
 		byPkg[in.Pkg] = append(byPkg[in.Pkg], in)
 		has[in.Name] = true
 	}
-	before := snapshot(entries, byPkg)
-	d0 := digest()
-	st := stabT{Kind: "stability", Config: config, Reads: len(before)}
-	// checkpoints: the snapshot is retaken at several points of the later history; for every read
-	// the first answer that differs from the one at commit time is kept (a wrong answer served
-	// from a cache may be evicted again by a later operation)
-	worst := snapT{}
-	for k, v := range before {
-		worst[k] = v
+	rec := newRecorder(entries, byPkg)
+	rec.sparse = restartFn != nil && !o.Thorough()
+	var d0 digT
+	if inProcess {
+		d0 = digest()
 	}
-	checkpoint := func() {
-		quiesce(true)
-		now := snapshot(entries, byPkg)
-		for k, v := range before {
-			if worst[k] == v && now[k] != v {
-				worst[k] = now[k]
-			}
-		}
-		st.Checkpoints++
-	}
-	for _, v := range before {
-		if strings.HasPrefix(v, "200:") {
-			st.Nonempty++
-		}
-	}
-	cur := before
-	blame := func() {
-		if !explore {
-			return
-		}
-		quiesce(true)
-		now := snapshot(entries, byPkg)
-		for k, v := range cur {
-			if now[k] != v && !strings.Contains(k, "/lmscratch/") {
-				fmt.Printf("BLAME %s: %s -> %s after %s\n", k, v, now[k], st.Ops[len(st.Ops)-1])
-			}
-		}
-		cur = now
-	}
+	st := &stabT{Kind: "stability", Config: config}
 	op := func(what string, r dv.Resp) {
-		beat()
 		st.Ops = append(st.Ops, fmt.Sprintf("%s -> %d", what, r.Status))
 	}
-	open := []string{uuidU}       // open nodes
-	committed := []string{uuidV, uuidW, uuidR}
-	nops := 60
+	mustOpen := func(what, uuid string, r dv.Resp) string {
+		op(what, r)
+		if r.Status != 200 || uuid == "" {
+			fmt.Fprintf(os.Stderr, "c02 later history: %s: %d %s\n", what, r.Status, truncate(string(r.Body), 200))
+			os.Exit(2)
+		}
+		return uuid
+	}
+
+	// (a) descendant: proofreading first (what V reads for labels 1, 2 and supervoxel 3 must not move)
+	u := uuidU
+	if has["lm"] {
+		op("POST lm/merge [1,2] (child of V)", tPost(node(u, "lm", "merge?u=verif"), []byte("[1,2]")))
+		settleLater()
+		op("POST lm/cleave/1 [3] (child of V)", tPost(node(u, "lm", "cleave/1?u=verif"), []byte("[3]")))
+	}
+	if has["la"] {
+		op("POST la/merge [1,2] (child of V)", tPost(node(u, "la", "merge?u=verif"), []byte("[1,2]")))
+	}
+	rec.checkpoint("proofreading in the child of V")
+	writeBatch(st, entries, byPkg, has, u, "child of V")
+	rec.checkpoint("writes in the child of V")
+
+	// (b) siblings: forked from V's parent, from its grandparent, from the empty root
+	forks := [][3]string{{"sibling forked from V's parent", uuidP, "sib-p"}, {"sibling forked from V's grandparent", uuidG, "sib-g"},
+		{"sibling forked from the empty root", uuidR, "sib-e"}}
+	if restartFn != nil && !o.Thorough() {
+		forks = forks[2:] // the restart run goes through a pipe: a shorter history in the quick tier
+	}
+	for _, f := range forks {
+		c, r := tBranch(f[1], f[2])
+		sib := mustOpen("branch "+f[2], c, r)
+		writeBatch(st, entries, byPkg, has, sib, f[0])
+		rec.checkpoint("writes in the " + f[0])
+		if f[2] == "sib-e" {
+			// a second round on the same sibling: replacing what the first round wrote
+			writeBatch(st, entries, byPkg, has, sib, f[0]+" (second round)")
+			rec.checkpoint("second round of writes in the " + f[0])
+		}
+		op("commit "+f[2], tCommit(sib))
+	}
+
+	// (c) an unrelated branch
+	c, r := tBranch(uuidW, "w-later")
+	wu := mustOpen("branch off W", c, r)
+	writeBatch(st, entries, byPkg, has, wu, "child of the unrelated branch W")
+	rec.checkpoint("writes on the unrelated branch")
+
+	// (d) other instances: new ones, and the deletion of the neighbour in instance-id order
+	if inProcess && has["lmscratch"] && os.Getenv("C02_NODELETE") == "" {
+		err := deleteInstance("lmscratch") // instance ids are handed out in creation order: lmscratch sits right before la
+		st.Ops = append(st.Ops, fmt.Sprintf("delete instance lmscratch -> %v", err))
+		if err == nil {
+			has["lmscratch"] = false
+		}
+	}
+	for i, typ := range []string{"keyvalue", "labelmap", "roi", "annotation"} {
+		name := fmt.Sprintf("later%d", i)
+		err := tNewInstance(wu, typ, name, nil)
+		st.Ops = append(st.Ops, fmt.Sprintf("new instance %s %s -> %v", typ, name, err))
+		if err == nil {
+			switch typ {
+			case "keyvalue":
+				tPost(node(wu, name, "key/k1"), []byte("later"))
+			case "roi":
+				tPost(node(wu, name, "roi"), []byte(roiB))
+			case "labelmap":
+				tPost(node(wu, name, "raw/0_1_2/64_64_64/0_0_0"), volCBytes)
+			}
+		}
+	}
+	if inProcess {
+		settleLater()
+		err := deleteInstance("later0")
+		st.Ops = append(st.Ops, fmt.Sprintf("delete instance later0 -> %v", err))
+	}
+	rec.checkpoint("new and deleted instances")
+
+	// random tail: version operations and writes anywhere open
+	open := []string{uuidU, wu}
+	committed := []string{uuidV, uuidW, uuidR, uuidP, uuidG}
+	var leaves []string // committed in the tail, no child yet
+	trunk := uuidU      // the deepest descendant of V on the master branch
+	nops := 40
 	if o.Thorough() {
 		nops = 400
 	}
-	scratch := 0
-	// fixed prelude: the later operations every run must contain
-	{
-		u := uuidU
-		op("POST kv/key/k1 (overwrite in child)", dv.Post(node(u, "kv", "key/k1?u=verif"), []byte("child-value")))
-		op("DELETE kv/key/k2 (child)", dv.Delete(node(u, "kv", "key/k2?u=verif")))
-		if has["roi"] {
-			op("POST roi/roi (child)", dv.Post(node(u, "roi", "roi?u=verif"), []byte(roiB)))
-		}
-		if has["gray"] {
-			op("POST gray/raw (child)", dv.Post(node(u, "gray", "raw/0_1_2/32_32_32/0_0_0?u=verif"), grayB))
-		}
-		if has["lm"] {
-			// proofreading in the child: what V reads for labels 1, 2 and supervoxel 3 must not move
-			op("POST lm/merge [1,2] (child)", dv.Post(node(u, "lm", "merge?u=verif"), []byte("[1,2]")))
-			quiesce(true)
-			op("POST lm/cleave/1 [3] (child)", dv.Post(node(u, "lm", "cleave/1?u=verif"), []byte("[3]")))
-			quiesce(true)
-		}
-		if has["la"] {
-			op("POST la/merge [1,2] (child)", dv.Post(node(u, "la", "merge?u=verif"), []byte("[1,2]")))
-			quiesce(true)
-		}
-		checkpoint()
-		if has["lm"] {
-			op("POST lm/raw (child)", dv.Post(node(u, "lm", "raw/0_1_2/64_64_64/0_0_0?u=verif"), volBBytesG))
-			quiesce(true)
-			op("POST lm/merge [7,8] (child)", dv.Post(node(u, "lm", "merge?u=verif"), []byte("[7,8]")))
-		}
-		if has["an"] {
-			op("POST an/elements (child)", dv.Post(node(u, "an", "elements?u=verif"), []byte(annotB)))
-			op("DELETE an/element (child)", dv.Delete(node(u, "an", "element/10_10_10?u=verif")))
-		}
-		if has["nj"] {
-			op("POST nj/key/1000 (child)", dv.Post(node(u, "nj", "key/1000?u=verif"), []byte(njB)))
-			op("DELETE nj/key/2000 (child)", dv.Delete(node(u, "nj", "key/2000?u=verif")))
-		}
-		if has["tsv"] {
-			op("POST tsv/supervoxel/1 (child)", dv.Post(node(u, "tsv", "supervoxel/1?u=verif"), []byte("PROBE-mesh")))
-		}
-		if has["lmscratch"] && os.Getenv("C02_NODELETE") == "" {
-			// instance ids are handed out in creation order: lmscratch sits right before la
-			err := deleteInstance("lmscratch")
-			st.Ops = append(st.Ops, fmt.Sprintf("delete instance lmscratch -> %v", err))
-			if err == nil {
-				has["lmscratch"] = false
-			}
-		}
-		quiesce(true)
-		if len(st.Ops) > 0 {
-			blame()
-		}
-		checkpoint()
+	if restartFn != nil {
+		nops = 15
 	}
 	for i := 0; i < nops; i++ {
-		switch k := rng.Intn(14); {
-		case k < 6 && len(open) > 0: // write into an open descendant / sibling
+		switch k := rng.Intn(12); {
+		case k < 5 && len(open) > 0: // write into an open node
 			u := open[rng.Intn(len(open))]
 			var cands []instT
 			for _, in := range insts {
@@ -323,7 +496,6 @@ func stability(run *lib.Run, rng *lib.Rand, o lib.Opts, config string) {
 				}
 			}
 			in := cands[rng.Intn(len(cands))]
-			// pick a random table entry of the package and a mutating method
 			var es []entryT
 			for _, e := range entries {
 				if e.Pkg == in.Pkg {
@@ -339,26 +511,37 @@ func stability(run *lib.Run, rng *lib.Rand, o lib.Opts, config string) {
 				kw = sp.Star
 			}
 			url := urlFor(u, in, kw, sp)
-			op(strings.ToUpper(meth)+" "+strings.Replace(url, u, "open", 1), dv.Do(strings.ToUpper(meth), url, sp.Body))
-		case k == 6 && len(open) > 0: // commit an open node
+			op(strings.ToUpper(meth)+" "+strings.Replace(url, u, "open", 1), tDo(strings.ToUpper(meth), url, sp.Body))
+		case k == 5 && len(open) > 0: // commit an open node
 			j := rng.Intn(len(open))
 			u := open[j]
-			r := dv.Commit(u)
+			r := tCommit(u)
 			op("commit", r)
 			if r.Status == 200 {
 				open = append(open[:j], open[j+1:]...)
 				committed = append(committed, u)
+				leaves = append(leaves, u)
 			}
-		case k == 7: // new version of a committed node
-			p := committed[rng.Intn(len(committed))]
-			c, r := dv.NewVersion(p)
+		case k == 6 || k == 7: // new version of a committed node that has no child on its branch yet
+			// (DVID accepts a second newversion on the same branch; the branch then has two heads and
+			// its ancestry can no longer be computed, see sendResolved; the later history keeps branches linear)
+			if len(leaves) == 0 {
+				continue
+			}
+			j := rng.Intn(len(leaves))
+			p := leaves[j]
+			c, r := tNewVersion(p)
 			op("newversion", r)
 			if r.Status == 200 {
 				open = append(open, c)
+				leaves = append(leaves[:j], leaves[j+1:]...)
+				if p == trunk {
+					trunk = c
+				}
 			}
 		case k == 8: // branch
 			p := committed[rng.Intn(len(committed))]
-			c, r := dv.Branch(p, fmt.Sprintf("b%d", rng.U64()%100000000))
+			c, r := tBranch(p, fmt.Sprintf("b%d", rng.U64()%100000000))
 			op("branch", r)
 			if r.Status == 200 {
 				open = append(open, c)
@@ -367,127 +550,62 @@ func stability(run *lib.Run, rng *lib.Rand, o lib.Opts, config string) {
 			a := committed[rng.Intn(len(committed))]
 			b := committed[rng.Intn(len(committed))]
 			if a != b {
-				c, r := dv.Merge([]string{a, b})
+				c, r := tMerge([]string{a, b})
 				op("merge", r)
 				if r.Status == 200 && c != "" {
 					open = append(open, c)
 				}
 			}
-		case k == 10 && len(open) > 0: // new instance on an open node (instances are repo-wide)
-			scratch++
-			name := fmt.Sprintf("scratch%d", scratch)
-			typ := []string{"keyvalue", "labelmap", "annotation", "roi"}[rng.Intn(4)]
-			u := open[rng.Intn(len(open))]
-			err := dv.NewInstance(u, typ, name, nil)
-			st.Ops = append(st.Ops, fmt.Sprintf("new instance %s %s -> %v", typ, name, err))
-			if err == nil && typ == "keyvalue" {
-				dv.Post(node(u, name, "key/k1"), []byte("scratch"))
-			}
-		case k == 11 && scratch > 0: // delete a scratch instance
-			name := fmt.Sprintf("scratch%d", 1+rng.Intn(scratch))
-			err := deleteInstance(name)
-			st.Ops = append(st.Ops, fmt.Sprintf("delete instance %s -> %v", name, err))
-		case k == 12 && has["lmscratch"] && rng.Chance(0.3) && os.Getenv("C02_NODELETE") == "": // delete a pre-existing instance other than the snapshotted ones
-			err := deleteInstance("lmscratch")
-			st.Ops = append(st.Ops, fmt.Sprintf("delete instance lmscratch -> %v", err))
-			if err == nil {
-				has["lmscratch"] = false
-			}
-		case k == 13 && len(open) > 0: // labelmap proofreading in a descendant
+		case k == 10 && len(open) > 0 && has["lm"]: // labelmap proofreading somewhere open
 			u := open[rng.Intn(len(open))]
 			switch rng.Intn(3) {
 			case 0:
-				op("lm merge", dv.Post(node(u, "lm", "merge"), []byte("[2,1]")))
+				op("lm merge", tPost(node(u, "lm", "merge?u=verif"), []byte("[2,1]")))
 			case 1:
-				op("lm cleave", dv.Post(node(u, "lm", "cleave/1"), []byte("[3]")))
+				op("lm cleave", tPost(node(u, "lm", "cleave/1?u=verif"), []byte("[3]")))
 			default:
-				op("lm split-supervoxel", dv.Post(node(u, "lm", "split-supervoxel/2"), sparsevolRLE(2, [][4]int{{40, 5, 5, 10}})))
+				op("lm split-supervoxel", tPost(node(u, "lm", "split-supervoxel/2?u=verif"), sparsevolRLE(2, [][4]int{{40, 5, 5, 10}})))
 			}
 		}
-		if len(st.Ops) > 0 {
-			blame()
+	}
+	rec.checkpoint("the random tail")
+	if restartFn != nil {
+		// the trunk continues below V: the node created last on master descends from V, P, G and E, so
+		// the restarted server rebuilds its in-memory state leaf-to-root through all of them
+		op("commit the trunk", tCommit(trunk))
+		if c, r := tNewVersion(trunk); r.Status == 200 {
+			op("newversion of the trunk", r)
+			trunk = c
+			open = append([]string{c}, open...)
+			tPost(node(c, "kv", "key/trunk?u=verif"), []byte("trunk"))
+		} else {
+			op("newversion of the trunk", r)
 		}
-	}
-	_ = blame
-	time.Sleep(60 * time.Millisecond)
-	quiesce(true)
-	// lmscratch may be gone: it holds nothing stamped with V that the snapshot reads, but its keys
-	// stamped with other versions legitimately disappear: compare only V's note/log/lock and the
-	// V-stamped keys of the surviving instances through the snapshot itself
-	byPkg2 := map[string][]instT{}
-	for _, in := range insts {
-		if has[in.Name] || in.Name == "lmscratch" {
-			byPkg2[in.Pkg] = append(byPkg2[in.Pkg], in)
-		}
-	}
-	checkpoint()
-	after := worst
-	d1 := digest()
-	st.NodeV = d0.Node != d1.Node
-	var keys []string
-	for k := range before {
-		keys = append(keys, k)
-	}
-	sort.Strings(keys)
-	type perT struct {
-		Kind   string   `json:"kind"`
-		Config string   `json:"config"`
-		Inst   string   `json:"instance"`
-		Pkg    string   `json:"pkg"`
-		Reads  int      `json:"reads"`
-		Differ []string `json:"differ"`
-		Known  []string `json:"differ_known"`
-		Code   int      `json:"known_code"`
-		Ops    []string `json:"ops"`
-	}
-	per := map[string]*perT{}
-	var names []string
-	for _, k := range keys {
-		if strings.Contains(k, "/lmscratch/") {
-			continue
-		}
-		parts := strings.Split(k, "/") // "", api, node, V, inst, kw...
-		name := parts[4]
-		p := per[name]
-		if p == nil {
-			p = &perT{Kind: "stability-instance", Config: config, Inst: name}
-			for _, in := range insts {
-				if in.Name == name {
-					p.Pkg = in.Pkg
+		restartFn()
+		st.Ops = append(st.Ops, "server process shut down; new process started on the same store directories")
+		// clients look at the HEAD first: read every instance at the open nodes before the committed ones
+		for _, u := range open {
+			for _, e := range entries {
+				for _, in := range byPkg[e.Pkg] {
+					if !has[in.Name] || in.Unversioned {
+						continue
+					}
+					for _, sp := range probesFor(e.Pkg, e.Kw, "get", in) {
+						if sp.Snap && e.Kw != "*" {
+							tDo("GET", urlFor(u, in, e.Kw, sp), sp.Body)
+						}
+					}
 				}
 			}
-			per[name] = p
-			names = append(names, name)
 		}
-		p.Reads++
-		if before[k] != after[k] {
-			d := fmt.Sprintf("%s: %s -> %s", k, before[k], after[k])
-			switch {
-			case p.Pkg == "roi" && strings.Contains(k, "/partition"):
-				// recorded finding C02-roi-partition: laid out from the instance-wide MinZ/MaxZ properties
-				p.Known, p.Code = append(p.Known, d), 7
-			case p.Pkg == "tarsupervoxels":
-				// recorded finding C02-tarsupervoxels-root-pinned: every blob lives at the repo's root version
-				p.Known, p.Code = append(p.Known, d), 8
-			default:
-				p.Differ = append(p.Differ, d)
-				st.Differ = append(st.Differ, d)
-			}
-		}
+		rec.checkpoint("a restart of the server process")
+		// and the restarted server keeps serving writes without disturbing what is committed
+		writeBatch(st, entries, byPkg, has, wu, "child of the unrelated branch W, after the restart")
+		rec.checkpoint("writes after the restart")
 	}
-	run.Extra["stability_reads/"+config] = st.Reads
-	run.Extra["stability_reads_with_content/"+config] = st.Nonempty
-	run.Extra["stability_ops/"+config] = len(st.Ops)
-	if explore {
-		for _, d := range st.Differ {
-			fmt.Println("DIFF", d)
-		}
-		fmt.Println("stability: reads", st.Reads, "with content", st.Nonempty, "ops", len(st.Ops), "differ", len(st.Differ), "node", st.NodeV)
+	if inProcess {
+		d1 := digest()
+		st.NodeV = d0.Node != d1.Node
 	}
-	run.Add("stability", fmt.Sprintf("CStable %d %d %d %s", st.Reads, st.Nonempty, len(st.Differ), lib.CoqBool(st.NodeV)), st, "stability/"+config)
-	for _, name := range names {
-		p := per[name]
-		p.Ops = st.Ops
-		run.Add("stability-instance", fmt.Sprintf("CStabInst %d %d %d %d", p.Code, p.Reads, len(p.Differ), len(p.Known)), p, "stability/"+config+"/"+name)
-	}
+	rec.emit(run, st)
 }
